@@ -640,7 +640,7 @@ fn bt_twin(phi: &dyn Fn(f64) -> f64, alpha: f64, f0: f64, df0: f64, third: bool,
             let div = 1.0 / (sq(a1) * sq(a2) * (a2 - a1));
             let a = (sq(a1) * (fx1 - f0 - df0 * a2) - sq(a2) * (fx0 - f0 - df0 * a1)) * div;
             let b = (-cu(a1) * (fx1 - f0 - df0 * a2) + cu(a2) * (fx0 - f0 - df0 * a1)) * div;
-            margin = margin.min((a.abs() - f64::EPSILON).abs() / f64::EPSILON * 1e-6);
+            margin = margin.min(((a.abs() - f64::EPSILON).abs() / f64::EPSILON).min(1.0));
             if a.abs() <= f64::EPSILON {
                 a_tmp = df0 / (2.0 * b);
             } else {
@@ -802,7 +802,7 @@ fn corr_fit_end_to_end(out: &mut Out, rng: &mut Rng) {
                 coq_f64(alpha),
                 coq_rows_f64(&fit.coef),
                 coq_list_f64(&fit.icpt),
-                coq_list_f64(&fit.pred)
+                coq_list_f64(&classes_of(&d.y))
             ),
             json!({"entry": "fit", "x": d.x, "y": d.y, "alpha": alpha}),
         );
@@ -1029,7 +1029,8 @@ fn main() {
     for i in 0..n_qt {
         let n = rng.usize_in(1, 5);
         let cond = log_uniform(&mut rng, 1.0, 1e3);
-        let am = gen_spd(&mut rng, n, cond, log_uniform(&mut rng, 0.1, 10.0));
+        let lmax = log_uniform(&mut rng, 0.1, 10.0);
+        let am = gen_spd(&mut rng, n, cond, lmax);
         let b: Vec<f64> = (0..n).map(|_| rng.normal()).collect();
         let x0: Vec<f64> = (0..n).map(|_| rng.normal() * *rng.pick(&[0.0, 1.0, 10.0])).collect();
         // small memories and iteration budgets exercise the circular history and the max_iter exit
